@@ -1,6 +1,7 @@
 """Fixes that aim to improve performance"""
 
 import ast
+import copy
 
 from pyrefact import constants, core, processing
 
@@ -129,7 +130,9 @@ def remove_redundant_chained_calls(source: str) -> str:
         func=ast.Name(id="reversed"), args=[ast.Call(func=ast.Name(id="sorted"))]
     )
     for node in core.walk(root, reversed_sorted_template):
-        replacement = node.args[0]
+        # The nodes of root are shared through the core.parse cache: edit copies, never the originals.
+        replacement = copy.copy(node.args[0])
+        replacement.keywords = [copy.copy(kw) for kw in replacement.keywords]
         for i, kw in enumerate(replacement.keywords):
             if kw.arg == "reverse":
                 kw.value = ast.UnaryOp(op=ast.Not(), operand=kw.value)
